@@ -23,8 +23,8 @@ cos/sin/exp carries <= 3.5u*|k|r absolute, libm 1u, r^3 / rsqrt^3 <= 4u, the nor
 |d||n|, the remaining products <= 6u: each backend is within ~ (8 + 4|k|r) eps of the exact value relative to the
 kernel's magnitude scale S (S = |G| for single layer, |G|(1+|k|r)/r for the normal derivatives and the gradient,
 1/(4 pi) resp. |k||x|/(4 pi) for the far field with |x||y| in the role of r), so two correct backends differ by
-<= ~20 eps (1+|k|r) S.  Observed on the unchanged tree: <= 5 (see evidence `max_units_*`).  Threshold C_TOL = 512
-eps (1+|k|r) S: 6.1e-5 in single, 1.1e-13 in double, i.e. 100x above what is observed and 4 (single) resp. 6
+<= ~20 eps (1+|k|r) S.  Observed on the unchanged tree: <= 5.9 over 3.9e7 pairs (evidence `max_units_*`).  Threshold C_TOL = 640
+eps (1+|k|r) S: 7.6e-5 in single, 1.4e-13 in double, i.e. > 100x above what is observed and 4 (single) resp. 6
 (double: a float literal is a 4e-8 error) orders below any sign, constant, lane or literal error.
 Shape functions: |OpenCL - Numba| <= 4 eps_type at every local point (values are O(1)).
 """
@@ -38,7 +38,7 @@ import numpy as np
 from vlib import boot
 from vlib.verdict import Ctx
 
-C_TOL = 512.0
+C_TOL = 640.0
 SHAPE_TOL = 4.0  # in eps of the type
 T = 16  # trial points per group = widest vector
 VARIANTS = {"novec": 1, "vec4": 4, "vec8": 8, "vec16": 16}
